@@ -226,8 +226,10 @@ pub fn ssk_collision_statistics(ctx: &mut Ctx) {
     use crate::ssk::new16;
     let shapes = [(20u64, 20u64, 20u64), (100, 100, 100), (0, 300, 100), (50, 50, 0), (0, 0, 40), (1, 1000, 5)];
     let trials = ctx.n(400, 6000);
-    for (b, a, q) in [(2.0f64, 20.0f64, 62u64), (1.5, 20.0, 110), (1.2, 20.0, 250), (1.001, 20.0, 65534)] {
-        for (n1, n2, n3) in shapes {
+    // small rates a (a * |S| of order 1): many registers are clipped at 0, the lower end of the register range matters
+    let small_shapes = [(1u64, 1u64, 0u64), (0, 0, 1), (2, 3, 1), (1, 0, 4)];
+    for (b, a, q) in [(2.0f64, 20.0f64, 62u64), (1.5, 20.0, 110), (1.2, 20.0, 250), (1.001, 20.0, 65534), (2.0, 0.5, 62), (1.5, 0.05, 110)] {
+        for (n1, n2, n3) in (if a < 1.0 { small_shapes.to_vec() } else { shapes.to_vec() }) {
             let p = ssk_pcoll(b, a, q, n1, n2, n3);
             let jtrue = n3 as f64 / (n1 + n2 + n3) as f64;
             for m in [1u64, 4, 16, 256] {
